@@ -244,13 +244,13 @@ def run(chk, tier):
         failed = bool(err) and not (err[0][0] == "eq" and err[0][2] == 0)
         key_ = "failed" if failed else ((pos[0] if pos else "other") + ("/" + opt[0] if opt else ""))
         rows_[key_] = symex.render(r_)
-    int_ok = re.compile(r"i64::checked_neg\\(a\\.Int\\.0\\)|i64::checked_sub\\(0, a\\.Int\\.0\\)|^Sub::sub\\(CelValue::from_int\\(0\\), a\\)$|^CelValue::from_err\\(")
+    int_ok = re.compile(r"i64::checked_neg\(a\.Int\.0\)|i64::checked_sub\(0, a\.Int\.0\)|^Sub::sub\(CelValue::from_int\(0\), a\)$|^CelValue::from_err\(")
     int_rows = {k_: v_ for k_, v_ in rows_.items() if k_.startswith("Int")}
     if int_rows and all(int_ok.search(v_) for v_ in int_rows.values()) and any("checked_" in v_ or "Sub::sub" in v_ for v_ in int_rows.values()):
         chk.ok("R13.7", "neg|Int", sorted(int_rows.values())[0][:80])
     else:
         chk.bad("R13.7", "neg|Int", "unary minus on an int must be a checked negation (error on the minimum int): %s" % int_rows, nb_.file)
-    want_ = {"failed": r"^a$", "Float": r"^From::from<CelValue><-f64\\(Neg\\(a\\.Float\\.0\\)\\)$", "other": r"^CelValue::from_err\\("}
+    want_ = {"failed": r"^a$", "Float": r"^From::from<CelValue><-f64\(Neg\(a\.Float\.0\)\)$", "other": r"^CelValue::from_err\("}
     for k_, rx_ in want_.items():
         g_ = rows_.get(k_)
         if g_ is not None and re.match(rx_, g_):
